@@ -1020,6 +1020,7 @@ def check_c08(prop, tier, seed, devices):
     if tier == "quick" and len(uniq) > 25000:
         uniq = rnd.sample(uniq, 25000)
     return run_cases(prop, tier, seed, uniq, devices, keyf=default_key, mc=mc,
+                     extra=[pipeline_extra(sample=2500 if tier == "quick" else 25000, fixtures=True, suite=True, seed=seed)],
                      rule="every well-formed nesting structure (if / elif* / else? / endif, nesting <= 3) of up to %d lines, each instantiated with "
                           "all-true, all-false and %d seeded assignments of {.if 0/1, .if K==k, .ifdef/.ifndef FLAG} x {.elif 0/1/K==k} x "
                           "{marker instruction, .message, garbage text, .define FLAG, label+use}; %d structures" % (maxn, per_struct, nstruct),
@@ -1445,7 +1446,7 @@ def check_c09(prop, tier, seed, devices):
                 und = [l for l in copy.deepcopy(prog)]
                 und.append(call("nosuchmacro", R(1)))
                 cases.append(Case(und, tag="macro.undefined"))
-    return run_cases(prop, tier, seed, cases, devices, keyf=default_key,
+    return run_cases(prop, tier, seed, cases, devices, keyf=default_key, extra=[pipeline_extra(sample=1500 if tier == "quick" else 15000, seed=seed)],
                      rule="%d macro bodies (register, repeated, one operator of every precedence level on either side of the parameter, data, "
                           "index forms, conditionals on parameters, nested calls with permuted parameters, bodies switching to the data and EEPROM "
                           "segment) x seeded argument sets (registers, index forms, literals, a+b, (a+b), a*b, -a, a<<b|c, symbols) x placement "
